@@ -32,6 +32,26 @@ Theorem C07_subset_success : forall (H : string -> string) (cf : cfg) pl r s cr 
 Proof. exact success_subset. Qed.
 Print Assumptions C07_subset_success.
 
+(* the refreshed ID token (t_sub) and access token (t_at_sub) keep the subject of the presented
+   token, whatever the narrowed scope - e.g. a list without openid - and whatever the storage's
+   userinfo mapping does with the structure it is handed *)
+Theorem C07_keeps_subject : forall (H : string -> string) (cf : cfg) pl r s cr rt scopes s' t,
+  step H cf r s (TokenRefresh pl cr rt scopes) = (s', OTokens t) ->
+  exists n r0, rt = Some n /\ find_rt s n = Some r0 /\ t_sub t = r_sub r0 /\ t_at_sub t = r_sub r0.
+Proof. exact keeps_subject. Qed.
+Print Assumptions C07_keeps_subject.
+
+(* CONCURRENCY.  P_overlap marks a request that was sent before the operation preceding it in the
+   history and was in flight (authenticated, about to look its refresh token up) while that
+   operation - e.g. another client presenting the same token and scope - ran from start to
+   end.  It is answered exactly as if it had been sent alone afterwards; and since a step is a
+   function of the storage state and the request only, the operation it overlapped with is
+   answered exactly as if nothing had been in flight (every theorem of this file applies to it). *)
+Theorem C07_overlap_alone : forall (H : string -> string) (cf : cfg) r s cr rt scopes,
+  step H cf r s (TokenRefresh P_overlap cr rt scopes) = step H cf r s (TokenRefresh P_body cr rt scopes).
+Proof. exact overlap_alone. Qed.
+Print Assumptions C07_overlap_alone.
+
 (* requested not within granted: a request that would succeed without a scope parameter
    is answered invalid_scope and the storage is unchanged *)
 Theorem C07_subset : forall (H : string -> string) (cf : cfg) pl r s cr n rt scopes s0 t0,
